@@ -289,18 +289,20 @@ impl<F: Fl> DWorld<F> {
             }
             DOp::TakeEdge(u) => {
                 let a = self.node(u);
+                // which incident edge comes first is not this property's
+                // business: keep whatever the iterator yields first
                 let e = F::edges_out(&a).into_iter().next();
-                let exp = self.model.first_iter_edge(u).unwrap();
                 match e {
                     Some(e) => {
                         let acc = F::edge_accessors(&e);
-                        if (acc.0, acc.1) != exp {
-                            return bad("edge-endpoints", format!("first edge of n{} is {:?}, model {:?}", u, acc, exp));
+                        let known = self.model.edges.iter().any(|m| (m.0, m.1) == (acc.0, acc.1) || (!self.model.directed && (m.1, m.0) == (acc.0, acc.1)));
+                        if acc.0 != u || !known {
+                            return bad("edge-endpoints", format!("first edge of n{} is {:?}, which is not an edge of the graph {:?}", u, acc, self.model.edges));
                         }
                         self.real.push(RH::Edge(e));
-                        self.model.handles.push(MH::Edge(exp.0, exp.1));
+                        self.model.handles.push(MH::Edge(acc.0, acc.1));
                     }
-                    None => return bad("edge-missing", format!("n{} yields no edge, model has {:?}", u, exp)),
+                    None => return bad("edge-missing", format!("n{} yields no edge, model has {:?}", u, self.model.first_iter_edge(u))),
                 }
             }
             DOp::TakePath(..) | DOp::TakeCycle(..) => {
